@@ -19,7 +19,8 @@ Tree == IF Kind = "arr" THEN Arr([i \in 1..N |-> Elem(i)])
         ELSE Obj([i \in 1..N |-> << <<34, 107>> \o D5(i) \o <<34>>, Tok(IF i % 2 = 0 THEN <<110, 117, 108, 108>> ELSE <<49, 46, 53>>) >>])
 Init == z = 0
 Next == UNCHANGED z
-Case == LET x == RenderL(Tree, 0) r == ParseText(x) IN
-  [t |-> x, ok |-> r.ok, why |-> r.why, at |-> r.i - 1, scope |-> FaultScope(x, r.why), v |-> r.v, nodes |-> N + 1, layout |-> 0]
-Emit == CSVWrite("%1$s", <<ToJson(Case)>>, IOEnv.OUT)
+\* (bound variables force one evaluation of the rendering and of the parse; a LET definition would be re-evaluated at each use)
+Emit == \A x \in {RenderL(Tree, 0)} : \A r \in {ParseText(x)} :
+  CSVWrite("%1$s", <<ToJson([t |-> x, ok |-> r.ok, why |-> r.why, at |-> r.i - 1, scope |-> IF r.ok THEN "" ELSE FaultScope(x, r.why), v |-> r.v,
+                             nodes |-> N + 1, layout |-> 0])>>, IOEnv.OUT)
 =============================================================================
